@@ -564,6 +564,54 @@ func c08cases(seed int64, i int, keys *gen.KeyRing) []c08case {
 		}
 		return ""
 	}, "key/" + mapClass(key.Params)})
+	// a text algorithm in the protected header (private-use algorithms are named by text): the encoders
+	// take it, so their output must decode again
+	{
+		tprot := map[any]any{}
+		for k, v := range prot {
+			if nl, ok := refNorm(k); ok && nl == int64(1) {
+				continue
+			}
+			tprot[k] = v
+		}
+		tprot[int64(1)] = mon.Pick(r, "ES256", "private-alg", "x")
+		th := func() cose.Headers {
+			return cose.Headers{Protected: cose.ProtectedHeader(tprot), Unprotected: cose.UnprotectedHeader(unprot)}
+		}
+		tsig := r.Bytes(64)
+		cases = append(cases,
+			c08case{"Sign1Message.MarshalCBOR(text alg)", func() ([]byte, error) {
+				return (&cose.Sign1Message{Headers: th(), Payload: []byte("p"), Signature: tsig}).MarshalCBOR()
+			}, func(out []byte) string {
+				var d cose.Sign1Message
+				if err := d.UnmarshalCBOR(out); err != nil {
+					return "own output refused by the decoder: " + err.Error()
+				}
+				if !eqHeader(tprot, d.Headers.Protected) {
+					return "decoded value not equivalent to the source"
+				}
+				return ""
+			}, "text-alg"},
+			c08case{"Signature.MarshalCBOR(text alg)", func() ([]byte, error) {
+				return (&cose.Signature{Headers: th(), Signature: tsig}).MarshalCBOR()
+			}, func(out []byte) string {
+				var d cose.Signature
+				if err := d.UnmarshalCBOR(out); err != nil {
+					return "own output refused by the decoder: " + err.Error()
+				}
+				return ""
+			}, "text-alg"},
+			c08case{"SignMessage.MarshalCBOR(text alg)", func() ([]byte, error) {
+				return (&cose.SignMessage{Headers: cose.Headers{Protected: cose.ProtectedHeader{}, Unprotected: cose.UnprotectedHeader{}}, Payload: []byte("p"), Signatures: []*cose.Signature{{Headers: th(), Signature: tsig}}}).MarshalCBOR()
+			}, func(out []byte) string {
+				var d cose.SignMessage
+				if err := d.UnmarshalCBOR(out); err != nil {
+					return "own output refused by the decoder: " + err.Error()
+				}
+				return ""
+			}, "text-alg"},
+		)
+	}
 	return cases
 }
 
